@@ -14,6 +14,7 @@ import (
 	"time"
 
 	"github.com/cloudwego/hertz/pkg/app"
+	"github.com/cloudwego/hertz/pkg/common/verifhook"
 
 	"verifsim/core"
 	"verifsim/wire"
@@ -292,7 +293,10 @@ func RunC08(ep *core.Episode) {
 	srv := NewSrv(ep, nw, SrvOpts{BufSize: 4096, IdleTimeout: 60 * time.Second})
 	accept := tp.Chance("acceptrange", 3, 4)
 	cacheDur := tp.PickDur("cachedur", 20*time.Millisecond, 100*time.Millisecond, time.Second)
-	genIdx := tp.Choose("genidx", 2) == 1
+	// 6, 7: the same, and the statement-level yields the driver inserts into fs.go are honoured in this episode
+	gk := tp.Choose("genidx", 8)
+	genIdx := gk%2 == 1
+	astOn := gk >= 6
 	fs := &app.FS{Root: root, AcceptByteRange: accept, IndexNames: []string{"index.html"}, GenerateIndexPages: genIdx, Compress: compress, CacheDuration: cacheDur,
 		PathRewrite: app.NewPathSlashesStripper(1)}
 	h := fs.NewRequestHandler()
@@ -310,6 +314,18 @@ func RunC08(ep *core.Episode) {
 	srv.Eng.GET("/file/:name", fileH)
 	srv.Eng.HEAD("/file/:name", fileH)
 	srv.Start()
+	if astOn {
+		// every statement of the file handler is a scheduling point for the tasks of this episode
+		// (goroutines left over from earlier episodes - cache cleaners - are not tasks and run on)
+		ep.Probe("inserted-yields")
+		verifhook.OnYield = func(site string, obj interface{}) {
+			if strings.HasPrefix(site, "ast") && S.Known() {
+				ep.ProbeN("inserted-yield-taken", 1)
+				S.Yield(site)
+			}
+		}
+		ep.OnCleanup(func() { verifhook.OnYield = nil })
+	}
 
 	nconn := 2 + tp.Choose("nconn", 4)
 	type cst struct {
@@ -349,6 +365,9 @@ func RunC08(ep *core.Episode) {
 				ep.Probe("head")
 			}
 			r.file = names[tp.Choose("file", len(names))]
+			if astOn && tp.Choose("astsame", 2) == 0 {
+				r.file = "/f4097.bin" // the connections meet on one small file
+			}
 			if sameBig && tp.Choose("pickbig", 2) == 0 {
 				r.file = "/f24576.bin"
 				ep.Probe("concurrent-same-file")
@@ -568,6 +587,9 @@ func RunC08(ep *core.Episode) {
 	S.PassTimeWeight = 2
 	S.Quanta = []time.Duration{time.Millisecond, cacheDur/2 + time.Millisecond, cacheDur + time.Millisecond}
 	S.MaxSteps = 12000
+	if astOn {
+		S.MaxSteps = 150000
+	}
 	S.Horizon = 5 * time.Minute
 	res := S.Run(func() bool {
 		for _, c := range conns {
